@@ -21,6 +21,15 @@ the same order, same exits); positions of the rewritten nodes are those of the s
       x.extend(E for t in IT if C)            (x a local name, the two statements adjacent, the generator does not read x;
                                                `x = []` followed by the extend is the plain comprehension [E for t in IT if C])
 
+  N6  return next((E for t in IT if C), D)   ==>   for t in IT:            (also `g = (E for ...)` on the line before and
+                                                       if C: return E      `return next(g, D)`, g used nowhere else; names
+                                                   return D                bound by `t` occur nowhere else in the function)
+
+  N7  x = E                 ==>   while True:          (loop rotation: the priming assignment and the one that ends the
+      while x:                        x = E            body are the same expression, BODY has no `continue` of this loop,
+          BODY                        if not x: break  no else clause; E is evaluated at exactly the same moments)
+          x = E                       BODY
+
   N5  with contextlib.suppress(A, B):   ==>   try: BODY
           BODY                                except (A, B): pass        (single context manager, no `as`)
 """
@@ -146,15 +155,102 @@ class _Accumulate(ast.NodeTransformer):
                         new_val = ast.copy_location(ast.List(elts=first + [ast.copy_location(ast.Starred(value=gen, ctx=ast.Load()), gen)], ctx=ast.Load()), tgt.value)
                     tgt.value = new_val
                     continue
+            # `x = []` + `async for t in IT: [if C:] x.append(E)`  ->  x = [E async for t in IT if C]
+            if prev is not None and isinstance(st, ast.AsyncFor) and not st.orelse and len(st.body) == 1:
+                inner = st.body[0]
+                conds = []
+                while isinstance(inner, ast.If) and not inner.orelse and len(inner.body) == 1:
+                    conds.append(inner.test)
+                    inner = inner.body[0]
+                tgt = prev if (isinstance(prev, (ast.Assign, ast.AnnAssign)) and isinstance(getattr(prev, "value", None), ast.List) and not prev.value.elts) else None
+                xname = None
+                if tgt is not None:
+                    t0 = tgt.targets[0] if isinstance(tgt, ast.Assign) and len(tgt.targets) == 1 else getattr(tgt, "target", None)
+                    xname = t0.id if isinstance(t0, ast.Name) else None
+                if (xname and isinstance(inner, ast.Expr) and isinstance(inner.value, ast.Call) and isinstance(inner.value.func, ast.Attribute) and inner.value.func.attr == "append"
+                        and isinstance(inner.value.func.value, ast.Name) and inner.value.func.value.id == xname and len(inner.value.args) == 1 and not inner.value.keywords):
+                    elt = inner.value.args[0]
+                    tn = _names(st.target)
+                    inside = {id(n) for n in ast.walk(st)}
+                    if not any(isinstance(n, ast.Name) and n.id in tn and id(n) not in inside for n in ast.walk(self.fn)) and xname not in (_names(elt) | _names(st.iter) | {m for c_ in conds for m in _names(c_)}) \
+                            and not any(isinstance(n, (ast.Yield, ast.YieldFrom, ast.Await, ast.NamedExpr)) for x_ in [elt] + conds for n in ast.walk(x_)):
+                        tgt.value = ast.copy_location(ast.ListComp(elt=elt, generators=[ast.comprehension(target=st.target, iter=st.iter, ifs=conds, is_async=1)]), tgt.value)
+                        continue
             out.append(st)
         return out
+
+    # ---- N6 (on statement lists)
+    def _first_match(self, body):
+        out = []
+        for st in body:
+            if isinstance(st, ast.Return) and isinstance(st.value, ast.Call) and isinstance(st.value.func, ast.Name) and st.value.func.id == "next" \
+                    and len(st.value.args) == 2 and not st.value.keywords:
+                g, default = st.value.args
+                drop_prev = False
+                if isinstance(g, ast.Name) and out and isinstance(out[-1], ast.Assign) and len(out[-1].targets) == 1 and isinstance(out[-1].targets[0], ast.Name) \
+                        and out[-1].targets[0].id == g.id and isinstance(out[-1].value, ast.GeneratorExp):
+                    uses = [n for n in ast.walk(self.fn) if isinstance(n, ast.Name) and n.id == g.id]
+                    if len(uses) == 2:
+                        g = out[-1].value
+                        drop_prev = True
+                if isinstance(g, ast.GeneratorExp) and len(g.generators) == 1 and not g.generators[0].is_async:
+                    c = g.generators[0]
+                    tn = _names(c.target)
+                    inside = {id(n) for n in ast.walk(g)}
+                    clean = not any(isinstance(n, ast.Name) and n.id in tn and id(n) not in inside for n in ast.walk(self.fn)) \
+                        and not any(isinstance(n, ast.arg) and n.arg in tn for n in ast.walk(self.fn)) \
+                        and not any(isinstance(n, (ast.Yield, ast.YieldFrom, ast.Await, ast.NamedExpr)) for n in ast.walk(g)) \
+                        and not (tn & _names(default))
+                    if clean:
+                        inner: ast.stmt = ast.copy_location(ast.Return(value=g.elt), g.elt)
+                        for cond in reversed(c.ifs):
+                            inner = ast.copy_location(ast.If(test=cond, body=[inner], orelse=[]), cond)
+                        if len(c.ifs) > 1:
+                            pass
+                        loop = ast.copy_location(ast.For(target=c.target, iter=c.iter, body=[inner], orelse=[], type_comment=None), g)
+                        if drop_prev:
+                            out.pop()
+                        out.append(loop)
+                        out.append(ast.copy_location(ast.Return(value=default), st))
+                        continue
+            out.append(st)
+        return out
+
+    # ---- N7 (on statement lists)
+    def _rotate(self, body):
+        out = []
+        for st in body:
+            prev = out[-1] if out else None
+            if (isinstance(st, ast.While) and not st.orelse and isinstance(st.test, ast.Name) and len(st.body) >= 2
+                    and isinstance(prev, ast.Assign) and len(prev.targets) == 1 and isinstance(prev.targets[0], ast.Name) and prev.targets[0].id == st.test.id):
+                last = st.body[-1]
+                if isinstance(last, ast.Assign) and len(last.targets) == 1 and isinstance(last.targets[0], ast.Name) and last.targets[0].id == st.test.id \
+                        and ast.dump(last.value) == ast.dump(prev.value) and not self._has_own_continue(st.body[:-1]):
+                    brk = ast.copy_location(ast.If(test=ast.copy_location(ast.UnaryOp(op=ast.Not(), operand=st.test), st.test), body=[ast.copy_location(ast.Break(), st)], orelse=[]), st)
+                    out.pop()
+                    st.test = ast.copy_location(ast.Constant(value=True), st.test)
+                    st.body = [prev, brk] + st.body[:-1]
+                    out.append(st)
+                    continue
+            out.append(st)
+        return out
+
+    @staticmethod
+    def _has_own_continue(stmts) -> bool:
+        def walk(n):
+            if isinstance(n, ast.Continue):
+                return True
+            if isinstance(n, (ast.For, ast.AsyncFor, ast.While, ast.FunctionDef, ast.AsyncFunctionDef, ast.Lambda, ast.ClassDef)):
+                return False
+            return any(walk(c) for c in ast.iter_child_nodes(n))
+        return any(walk(s_) for s_ in stmts)
 
     def generic_visit(self, node):
         node = super().generic_visit(node)
         for fld in ("body", "orelse", "finalbody"):
             b = getattr(node, fld, None)
             if isinstance(b, list) and b and all(isinstance(x, ast.stmt) for x in b):
-                setattr(node, fld, self._merge(b))
+                setattr(node, fld, self._rotate(self._first_match(self._merge(b))))
         return node
 
 
